@@ -126,7 +126,7 @@ SPEC = dict(
              'the re-insertion loop, the loop over ordered_cells with the reference loop of serialize inside, the index loop) start <= 5n+4e+6 iterations; with the enumerate comprehension (n) and the Python-level CRC (one per output byte) <= 6(n+e)+6+len(output). '
              'Proof by a potential argument on the counting while (push-loop ticks + stack before <= stack after + 1 per iteration; post_order grows by <= 1), a fold invariant for serialized_cells_len, and the permutation argument of c19_src_serialize_layout. '
              'The header comprehensions and the CRC loop (bocCost.hdr / crc), the unary-loop iterations (dictParse steps), the number of bytes fed to SHA-256 (buildBytes) and the TL counters remain cost model + measurement. '
-             'TL PARSER ON THE SOURCE: TlSchemas.deserialize is regenerated from tl/generator.py on every run (Generated/TlEngine.lean, shared with C14) and proved equal to the C14 hand model for all inputs; c19_src_tl_total (Properties/C14.lean, which can import that model) proves that for every table with distinct field names and no cycle of bare references and EVERY byte string the regenerated code run with recursion depth (len/4+1)(R+2) and len+2 iterations of its while loop returns what it returns with any larger budgets - no loop or recursion of the code as written runs beyond a bound in the input length (each while iteration consumes >= 1 content byte or breaks; the vector loop is bounded by the guard); the step COUNT stays the cost model\'s (c19_tl_total).',
+             'TL PARSER ON THE SOURCE: TlSchemas.deserialize is regenerated from tl/generator.py on every run (Generated/TlEngine.lean, shared with C14) and proved equal to the C14 hand model for all inputs; c19_src_tl_total (Properties/C19Tl.lean) proves that for every table with distinct field names and no cycle of bare references and EVERY byte string the regenerated code run with recursion depth (len/4+1)(R+2) and len+2 iterations of its while loop returns what it returns with any larger budgets - no loop or recursion of the code as written runs beyond a bound in the input length (each while iteration consumes >= 1 content byte or breaks; the vector loop is bounded by the guard); the step COUNT stays the cost model\'s (c19_tl_total).',
         level_note='Trusted: Lean kernel (propext, Classical.choice, Quot.sound); Model/Cost.lean as a hand transcription of the loops of '
                    'cell.py (order, to_boc, __init__/calculate_hashes), deserialize.py, hashmap/parse.py, tl/generator.py (upper-bound '
                    'convention: validity failures that only cut work short are not modelled); harness/translate/tl_cost.py + TlEnv (the bundled '
@@ -142,9 +142,10 @@ SPEC = dict(
                  (_emit_tie_name(), _regen_boc_emitter),
                  ('hashmap/parse.py parse + deserialize_hashmap_node->Generated/HashmapCnt.lean (calls counted)', _regen_dict_cnt),
                  ('deserialize.py deserialize_cell, deserialize->Generated/BocCnt.lean (loop iterations counted)', _regen_boc_cnt),
-                 ('tl/generator.py TlSchemas.deserialize->Generated/TlEngine.lean (c19_src_tl_total, stated in Properties/C14.lean)', _regen_tl_parser),
+                 ('tl/generator.py TlSchemas.deserialize->Generated/TlEngine.lean (c19_src_tl_total, Properties/C19Tl.lean)', _regen_tl_parser),
                  ('cell.py Cell.__init__, resolve_mask, calculate_hashes->Generated/CellCtorCnt.lean (loop iterations counted)', _regen_ctor_cnt),
                  ('cell.py Cell.serialize, order, to_boc->Generated/BocEmitCnt.lean (loop iterations counted)', _regen_emit_cnt)],
+    property_modules=['C19Tl'],
     lean_targets=['TonVerif.Proofs.SrcBocDeser', 'TonVerif.Proofs.SrcOrderAny', 'TonVerif.Proofs.SrcBocAny', 'TonVerif.Proofs.SrcBocCnt', 'TonVerif.Proofs.SrcTlParser', 'TonVerif.Proofs.SrcCtorCnt', 'TonVerif.Proofs.SrcEmitCnt'],
     design_ref='DESIGN.md §6 C19',
     rule='one case = one public call on one adversarial input with its model step count; families: double/triple-ref chains 10..1000, '
